@@ -12,6 +12,7 @@ from .vals import (
     LIST_WITH_NONE, AstCls, BoundBuiltin, Cst, Ext, Fresh, Func, Gen, Hole, Obj, PDict, PList,
     PSet, PTuple, Rep, RepoCls, RepoMod, SColl, Splice, Str, StrOp, SuperProxy, SVal, Sym,
     TNode, TypeOf, UList, UNode, UPrim, Unknown, V, is_none,
+    Transf,
 )
 
 
@@ -843,6 +844,11 @@ class OpsMixin:
             tgt = v.ci.name if isinstance(v, RepoCls) else v.mi.name
             self.effects.append({"kind": "shared-write", "target": f"{tgt}.{name}", "site": self.cur_site})
             return
+        if isinstance(v, Transf):
+            # a field of an already rewritten node is replaced afterwards (by another rewritten value):
+            # recorded, the node stays "the user expression rewritten in that namespace"
+            self.effects.append({"kind": "rewritten-node-write", "target": f"{v.inner!r}.{name}", "value": val, "site": self.cur_site, "rep": list(self.rep_stack), "phase": getattr(self, "phase", None)})
+            return
         raise AnalysisError(f"attribute store {name} on {v!r} at {self.cur_site}")
 
     # ----------------------------------------------------------------- items
@@ -967,7 +973,21 @@ class OpsMixin:
                 if seq is not None and -len(seq) <= idx.value < len(seq):
                     base.items[idx.value] = val
                     return
-            base.items.append(TNode("$SetItem", {"index": idx, "value": val}, self.cur_site))
+            n = TNode("$SetItem", {"index": idx, "value": val}, self.cur_site)
+            # what the list holds at this moment (symbolic length) and the loops the store sits in:
+            # needed to judge WHICH element an index denotes
+            terms, const = {}, 0
+            for it_ in base.items:
+                if isinstance(it_, Rep):
+                    k = f"len({it_.over})"
+                    terms[k] = terms.get(k, 0) + len(it_.items)
+                elif isinstance(it_, TNode) and it_.kind == "$SetItem":
+                    pass
+                else:
+                    const += 1
+            n.len_before = Sym(terms, const)
+            n.rep = list(self.rep_stack)
+            base.items.append(n)
             return
         if isinstance(base, (Unknown, SVal, SColl)):
             self.effects.append({"kind": "setitem", "target": base.desc, "key": idx, "value": val, "site": self.cur_site, "rep": list(self.rep_stack)})
